@@ -17,6 +17,13 @@ def tree_specs(tier, seed, salt=""):
         out.append(("1:%s" % m, "%s:0" % m, False))
         if m in QUAT:
             out.append(("1:%s:euler" % m, "%s:0" % m, True))
+    # Ground-attached leaf Translation bodies with identity frames are silently implemented by the specialised
+    # RBNodeLoneParticle node (its own O(n) passes and its own q/u indexing): cover it alone, and after mobilizers
+    # whose q count differs from their u count (quaternions) so that a q/u index mix-up shows
+    out.append(("1:Translation:lone", "Translation:0/0", False))
+    out.append(("2:Free+lone", "Free:0,Translation:0/0", False))
+    out.append(("3:Ball-Pin+lone", "Ball:0,Translation:0/0,Pin:1", False))
+    out.append(("2:lone+Ball", "Translation:0/0,Ball:0/1", False))
     revs = MOBS1[:-1]     # every mobilizer reversed, both tiers (reversal bugs are mobilizer specific)
     for m in revs:
         out.append(("1:%s:rev" % m, "%s:0r" % m, False))
